@@ -193,6 +193,7 @@ var specC31 = vstat.Spec[c31Case]{
 	Assumptions: []string{"yield point solicit:accept-checked (verif build tag) owns the one interleaving that matters; the thorough tier additionally runs under -race"},
 	Gen:         genC31,
 	Check:       checkC31,
+	Inflight:    true,
 }
 
 func TestC31(t *testing.T)       { vstat.Check(t, specC31) }
@@ -420,8 +421,9 @@ var specC31c = vstat.Spec[c31cCase]{
 	Property: "C31",
 	Rule: "controller level: the real solicitation controller (fake directive instances / resolver handlers / mounted link) with 1-3 local solicitations (protocol/context from pools with boundary-shifted look-alikes, peer and transport constraints none / matching / excluding) and one incoming solicited stream for the remote side's (protocol, context); then every value created for that stream is accepted (sequentially or concurrently); " +
 		"oracle: at most one accepter obtains the stream however many local solicitations match; non-trivial = >=2 matching locals, shifted look-alikes or excluding constraints",
-	Gen:   genC31c,
-	Check: checkC31c,
+	Gen:      genC31c,
+	Check:    checkC31c,
+	Inflight: true,
 }
 
 func TestC31Controller(t *testing.T)       { vstat.Check(t, specC31c) }
